@@ -14,6 +14,46 @@ use std::sync::atomic::{AtomicBool, AtomicU64, Ordering};
 use std::sync::{Arc, Mutex};
 use std::time::Instant;
 
+static REAL_STDOUT: std::sync::OnceLock<Mutex<std::fs::File>> = std::sync::OnceLock::new();
+
+/// The library under test prints diagnostics with println!; route file descriptor 1 to /dev/null and keep
+/// the real stdout for the harness's own lines (VIOLATION / KNOWN-FINDING / summary).
+pub fn silence_library_stdout() {
+    use std::os::unix::io::FromRawFd;
+    if REAL_STDOUT.get().is_some() {
+        return;
+    }
+    extern "C" {
+        fn dup(fd: i32) -> i32;
+        fn dup2(a: i32, b: i32) -> i32;
+        fn open(path: *const u8, flags: i32) -> i32;
+    }
+    unsafe {
+        let real = dup(1);
+        let null = open(b"/dev/null\0".as_ptr(), 1);
+        if real >= 0 && null >= 0 {
+            dup2(null, 1);
+            let _ = REAL_STDOUT.set(Mutex::new(std::fs::File::from_raw_fd(real)));
+        }
+    }
+}
+
+pub fn out_line(s: &str) {
+    use std::io::Write;
+    match REAL_STDOUT.get() {
+        Some(f) => {
+            let mut g = f.lock().unwrap();
+            let _ = writeln!(g, "{}", s);
+        }
+        None => println!("{}", s),
+    }
+}
+
+#[macro_export]
+macro_rules! outln {
+    ($($arg:tt)*) => { $crate::report::out_line(&format!($($arg)*)) };
+}
+
 #[derive(Clone, Copy, PartialEq, Eq, Debug)]
 pub enum Tier {
     Quick,
@@ -244,7 +284,7 @@ impl Report {
                         &path,
                         serde_json::to_string_pretty(&json!({"property": rep.id, "section": info.0, "kind": "watchdog", "bytes_hex": hex(&info.1), "index": info.2})).unwrap(),
                     );
-                    println!("INCONCLUSIVE property={} watchdog: a case in section {} ran longer than {} s; saved {}", rep.id, info.0, limit_ms / 1000, path);
+                    outln!("INCONCLUSIVE property={} watchdog: a case in section {} ran longer than {} s; saved {}", rep.id, info.0, limit_ms / 1000, path);
                     std::process::exit(2);
                 }
             }
@@ -401,14 +441,14 @@ impl Report {
                         self.merge(section, local);
                         match &out.failure {
                             Some(f) => {
-                                println!("REPLAY property={} section={} outcome=FAIL signature={}\n  detail: {}", self.id, section, f.signature, f.detail);
+                                outln!("REPLAY property={} section={} outcome=FAIL signature={}\n  detail: {}", self.id, section, f.signature, f.detail);
                                 self.record_violation(section, f, val.clone(), None);
                             }
-                            None => println!("REPLAY property={} section={} outcome=pass labels={:?}", self.id, section, out.labels),
+                            None => outln!("REPLAY property={} section={} outcome=pass labels={:?}", self.id, section, out.labels),
                         }
                     }
                     Err(e) => {
-                        println!("REPLAY property={} section={} cannot deserialize case: {}", self.id, section, e);
+                        outln!("REPLAY property={} section={} cannot deserialize case: {}", self.id, section, e);
                         self.inconclusive(format!("replay case does not deserialize: {}", e));
                     }
                 }
@@ -426,6 +466,25 @@ impl Report {
         D: Fn(&mut Src) -> C + Sync,
         R: Fn(&C) -> Outcome + Sync,
     {
+        if let Some((sec, val)) = &self.replay {
+            if sec == section {
+                if let Some(hx) = val.get("__bytes").and_then(|v| v.as_str()) {
+                    // replay from the raw choice bytes (watchdog files, fuzzer inputs)
+                    let bytes = unhex(hx);
+                    let case = decode(&mut Src::new(&bytes));
+                    outln!("DECODED {}", serde_json::to_string(&case).unwrap_or_default());
+                    let out = run(&case);
+                    match &out.failure {
+                        Some(f) => {
+                            outln!("REPLAY property={} section={} outcome=FAIL signature={}\n  detail: {}", self.id, section, f.signature, f.detail);
+                            self.record_violation(section, f, serde_json::to_value(&case).unwrap_or(Value::Null), Some(bytes));
+                        }
+                        None => outln!("REPLAY property={} section={} outcome=pass labels={:?}", self.id, section, out.labels),
+                    }
+                    return;
+                }
+            }
+        }
         if self.replay_only::<C, R>(section, &run) {
             return;
         }
@@ -607,14 +666,14 @@ impl Report {
         let kh = self.known_hits.lock().unwrap();
         for (sig, (n, _)) in kh.iter() {
             let what = self.known.iter().find(|k| sig_match(&k.signature, sig)).map(|k| k.what.clone()).unwrap_or_default();
-            println!("KNOWN-FINDING: property={} {} [{} cases; {}]", self.id, sig, n, what);
+            outln!("KNOWN-FINDING: property={} {} [{} cases; {}]", self.id, sig, n, what);
         }
         let incon = self.inconclusive.lock().unwrap();
         for i in incon.iter() {
-            println!("INCONCLUSIVE property={} {}", self.id, i);
+            outln!("INCONCLUSIVE property={} {}", self.id, i);
         }
         for l in &lines {
-            println!("{}", l);
+            outln!("{}", l);
         }
         if self.replay.is_some() {
             return if !viols.is_empty() { 1 } else if !incon.is_empty() { 2 } else { 0 };
@@ -653,7 +712,7 @@ impl Report {
             "inconclusive": *incon,
         });
         let _ = std::fs::write(format!("{}/evidence/{}.json", dir, self.id), serde_json::to_string_pretty(&ev).unwrap());
-        println!(
+        outln!(
             "{} {} seed={} evaluations={} distinct_nontrivial={} violations={} known={} wall={:.1}s",
             self.id,
             self.tier.name(),
